@@ -234,8 +234,11 @@ def report(prop, tier, seed, results, extra, kf_entries, a, t0):
     if obligations == 0 or discharged == 0:
         ev["level"] = "other"
         ev["coverage"]["explanation"] = "no obligation was discharged in this run (see errors)"
-    os.makedirs(os.path.join(ROOT, "evidence"), exist_ok=True)
-    with open(os.path.join(ROOT, "evidence", "%s.json" % prop), "w") as f:
+    # DV_EVIDENCE_DIR: used only when a check is pointed at a deliberately broken tree (seeded changes, mutants),
+    # so that the committed evidence always comes from runs against the unchanged /repo
+    evdir = os.environ.get("DV_EVIDENCE_DIR") or os.path.join(ROOT, "evidence")
+    os.makedirs(evdir, exist_ok=True)
+    with open(os.path.join(evdir, "%s.json" % prop), "w") as f:
         json.dump(ev, f, indent=1, default=str)
     print("property=%s tier=%s units=%d obligations=%d discharged=%d failed=%d unknown=%d known-finding-obligations=%d wall=%.1fs"
           % (prop, tier, len(results), obligations, discharged, len(failed), len(unknown), known_whole, wall))
